@@ -722,6 +722,17 @@ class Translator:
                 return [s.guarded('%s = rt_slice_eq(*%s, *%s);' % (de, avs[0][0], avs[1][0]), unw)] + goto_ret
             if name == 'DROP_IN_PLACE':
                 name = 'rt_drop_in_place_slice' if is_fat(avs[0][1]) else 'rt_drop_one'
+            # type-generic models, emitted inline (the element may be a token, an integer, a struct ...)
+            if name == 'rt_replace':
+                return ['{ __typeof__(*%s) old_ = *%s; *%s = %s; %s = old_; }' % (avs[0][0], avs[0][0], avs[0][0], avs[1][0], de)] + goto_ret
+            if name == 'rt_read':
+                return ['%s = *%s;' % (de, avs[0][0])] + goto_ret
+            if name == 'rt_write':
+                return ['{ *%s = %s; %s = %s; }' % (avs[0][0], avs[1][0], de, avs[0][0])] + goto_ret
+            if name == 'rt_ptr_write':
+                return ['*%s = %s;' % (avs[0][0], avs[1][0])] + goto_ret
+            if name == 'rt_mem_swap':
+                return ['{ __typeof__(*%s) t_ = *%s; *%s = *%s; *%s = t_; }' % (avs[0][0], avs[0][0], avs[0][0], avs[1][0], avs[1][0])] + goto_ret
             if name == 'rt_identity': call = avs[0][0]
             elif name == 'rt_identity_range': call = avs[0][0]
             elif name == 'rt_deref_ptr': call = '(*%s)' % avs[0][0]
